@@ -48,8 +48,8 @@ Lemma gen_eq ascii il lf bf s :
                      | Ok pb, Ok pe => Ok [PDef [] [PFor pb; PIf pe]; PSimple] | _, _ => SyntaxErr end
   | SInline _ b => gens ascii il false false b
   | SSame b => gens ascii il lf bf b
-  | SMacro ps b => if nodupb ps then match gens ascii false false false b with Ok pb => Ok [PDef (ps ++ specials ps b) pb; PSimple] | SyntaxErr => SyntaxErr end else SyntaxErr
-  | SCallBlock ps _ kws b => if nodupb ps then match gens ascii false false false b, gen_call ascii true lf bf kws with Ok pb, Ok pc => Ok (PDef (ps ++ specials ps b) pb :: pc) | _, _ => SyntaxErr end else SyntaxErr
+  | SMacro ps b => if nodupb ps && explicit_caller_ok ps b then match gens ascii false false false b with Ok pb => Ok [PDef (ps ++ specials ps b) pb; PSimple] | SyntaxErr => SyntaxErr end else SyntaxErr
+  | SCallBlock ps _ kws b => if nodupb ps && explicit_caller_ok ps b then match gens ascii false false false b, gen_call ascii true lf bf kws with Ok pb, Ok pc => Ok (PDef (ps ++ specials ps b) pb :: pc) | _, _ => SyntaxErr end else SyntaxErr
   | SBlock b => match gens ascii false false true b with Ok pb => Ok [PDef [] pb; PSimple] | SyntaxErr => SyntaxErr end
   end.
 Proof. destruct s; try reflexivity. Qed.
@@ -158,9 +158,10 @@ Section Wf.
         injection H as <-. cbn [forallb py_ok andb]. now rewrite (gens_ok b Hb _ _ _ pb Eb), (gens_ok e He _ _ _ pe Ee).
     - exact (gens_ok b Hb _ _ _ t H).
     - exact (gens_ok b Hb _ _ _ t H).
-    - destruct (nodupb ps) eqn:E; [|discriminate]. destruct (gens ascii false false false b) as [pb|] eqn:Eb; [|discriminate].
+    - destruct (nodupb ps) eqn:E; [|discriminate]. destruct (explicit_caller_ok ps b); [|discriminate]. cbn [andb] in H.
+      destruct (gens ascii false false false b) as [pb|] eqn:Eb; [|discriminate].
       injection H as <-. cbn [forallb py_ok andb]. rewrite (nodupb_map _ (specials_nodup ps b E)), (gens_ok b Hb _ _ _ pb Eb). reflexivity.
-    - destruct (nodupb ps) eqn:E; [|discriminate].
+    - destruct (nodupb ps) eqn:E; [|discriminate]. destruct (explicit_caller_ok ps b); [|discriminate]. cbn [andb] in H.
       destruct (gens ascii false false false b) as [pb|] eqn:Eb; [|discriminate].
       destruct (gen_call ascii true lf bf k) as [pc|] eqn:Ec; [|discriminate].
       injection H as <-. cbn [forallb py_ok andb]. rewrite (nodupb_map _ (specials_nodup ps b E)), (gens_ok b Hb _ _ _ pb Eb), (gen_call_ok _ _ _ _ il pc Ec). reflexivity.
